@@ -178,6 +178,21 @@ def run(a, res):
         res.count("e2e_response_headers_delivered", e2e_ok)
         res.count("e2e_response_headers_sent", len(c["rsp_e2e"]))
         res.feature(*feat, "fwd")
+        # ---- the same object again, now (usually) from the cache: stored headers went through the same removal
+        if c["cache"] and c["method"] == "GET":
+            conn2 = lab.conn()
+            conn2.send(request_bytes("GET", lab.url(path), [], None, req_id=rid + ".again"))
+            m2 = conn2.read_response("GET", timeout=20)
+            conn2.close()
+            if m2.start is not None and not m2.error and m2.status == 200:
+                res.count("refetched")
+                if not lab.at_origin(rid + ".again"):
+                    res.count("refetched_from_cache")
+                for name, value in m2.headers:
+                    ln = name.lower()
+                    if ln in c["rsp_forb"] and c["rsp_forb"][ln] in value:
+                        kind = "listed-in-connection" if ln in c["rsp_listed"] else "standard-" + ln
+                        res.violation(f"response-hop-header-relayed:{kind}:on-refetch", f"client received '{name}: {value}' on the second fetch; origin headers={c['rsp_headers']}", wit(c))
 
     try:
         run_cases(a, res, gen_case, one, threads=8)
